@@ -20,6 +20,9 @@ def run(ck):
     bases = [dict(w=256, h=192, n=8, content=2, **{'f:enc_mode': 8}, **nolr), dict(w=320, h=256, n=6, content=8, **{'f:enc_mode': 4, 'f:enable_tpl_la': 0}, **nolr),
              dict(w=128, h=128, n=6, content=6, **{'f:enc_mode': 6}, **nolr), dict(w=384, h=256, n=6, content=2, **{'f:enc_mode': 6, 'f:tile_columns': 1, 'f:tile_rows': 2}, **nolr),
              dict(w=192, h=128, n=6, content=0, bits=10, **{'f:enc_mode': 8}, **nolr), dict(w=192, h=256, n=6, content=1, **{'f:enc_mode': 8, 'f:film_grain_denoise_strength': 12}, **nolr),
+             # pictures of exactly one superblock row (64 and 128 superblocks) with motion that leaves the picture: row-pipelined stages
+             # (padding after restoration, motion-field rows) have their single-row special cases here
+             dict(w=192, h=64, n=8, content=8, **{'f:enc_mode': 8}, **nolr), dict(w=384, h=128, n=6, content=8, **{'f:enc_mode': 4, 'f:enable_tpl_la': 0}, **nolr),
              dict(w=256, h=192, n=8, content=6, **{'f:enc_mode': 6})]      # the last one has loop restoration on
     if ck.tier == 'thorough':
         bases += [dict(w=w, h=h, n=8, content=c, **{'f:enc_mode': p, 'f:tile_columns': tc, 'f:tile_rows': tr}, **nolr) for (w, h, c, p, tc, tr) in [(640, 384, 2, 8, 2, 1), (256, 512, 6, 5, 0, 2), (448, 320, 8, 3, 1, 1), (192, 64, 1, 8, 0, 0)]]
